@@ -1,131 +1,193 @@
 """C03: the order constraints the mutation plans of `Repo.lean` encode, and the shape of the local backend's upload, read from the AST.
 
-repository.py
-  * `snapshotAfterWorkers`  — in `snapshot` the single `await self._upload_data(location, serialized_snapshot)` comes after the statement
-                              that awaits `asyncio.gather(*(_worker() …))` (stage 1 = chunk uploads, stage 2 = the snapshot object);
-  * `abortOnWorkerFailure`  — that `gather` sits in `try … except: abort.set(); raise`;
-  * `deleteSnapshotsFirst`  — in `delete_snapshots` the `gather` over `_delete_snapshot` precedes the `gather` over `_delete_chunk`,
-                              and both come after the last `raise` (all refusals happen before the first mutation);
-  * `cleanSingleStage`      — `clean` has exactly one `gather` of deletions.
+repository.py  (queries over the symbolically executed commands: what reaches `self.backend.<op>`, in which awaited gather)
+  * `snapshotAfterWorkers`  — in `snapshot` every chunk upload is run by ONE awaited `asyncio.gather`; the only other upload (one
+                              location, outside every loop — the snapshot object) is invoked after that await (stage 1, stage 2);
+  * `abortOnWorkerFailure`  — that await sits in a `try` whose catch-all handler sets the Event the producer polls, and re-raises;
+  * `deleteSnapshotsFirst`  — in `delete_snapshots` the deletions of non-chunk locations are one awaited gather that completes before
+                              any deletion of a location built from CHUNK_PREFIX (a second awaited gather); every `raise` of the
+                              method itself happens before the first deletion (all refusals precede the first mutation);
+  * `cleanSingleStage`      — `clean`: all deletions are one awaited gather, nothing is uploaded.
 backends/local.py
-  * `localTempSuffix` / `localTempSameDir` — `NamedTemporaryFile(prefix=…, suffix='.tmp', dir=destination.parent, delete=False)`;
-  * `localListExcludes`     — the suffix `list_files` skips;
-  * `localUploadShape`      — `upload` / `upload_stream`: write to the temporary, then `temp.replace(destination)`, and on any exception
-                              `temp.unlink(missing_ok=True)` before re-raising.
+  (recognised on the symbolically executed methods — `tools/symflow.py`; the queries are `symfacts.local_upload_shape` /
+   `symfacts.local_listing`; independent of names, helper boundaries, branch order, hoisted constants, added logging)
+  * `crashLocalTempSuffix` / `localTempSameDir` — the temporary whose rename publishes the object is created (NamedTemporaryFile /
+                              mkstemp) with this constant suffix, `dir=` the parent of the rename's destination, `delete=False`;
+  * `localListExcludes`     — the suffix S such that every path `list_files` yields is guarded by `not <that path>.endswith(S)`;
+  * `localUploadShape`      — `upload` / `upload_stream`: the payload is written into the temporary, then ONE rename temporary →
+                              destination is the last effect of the `try` body, the destination itself is not touched before, and the
+                              catch-all handler unconditionally unlinks the temporary (tolerating its absence) and re-raises.
 """
 import ast
 
+import symflow as sf
+import symfacts
 
-def _stmts_in_order(fn):
-    """top-level-first flattening of a function body in source order (does not descend into nested function definitions)"""
+
+def _own(e):
+    return not any(c[0] in ('inline', 'deferred') for c in e.ctx)
+
+
+def _group_ids(e):
+    """ids of the comprehensions / map() applications the event happens in (one element of a gathered batch)"""
+    return {c[1] for c in e.ctx if c[0] in ('comp', 'for')}
+
+
+def _gathers(events):
+    """[(gather call event, its await event or None, ids of the batches it is given)] for every `asyncio.gather` that PROPAGATES the
+    first exception of its batch (no `return_exceptions=True`: a stage that swallows failures is no barrier for the next one)"""
     out = []
-
-    def walk(body):
-        for st in body:
-            out.append(st)
-            if isinstance(st, (ast.FunctionDef, ast.AsyncFunctionDef)):
-                continue
-            for fld in ('body', 'orelse', 'finalbody'):
-                sub = getattr(st, fld, None)
-                if isinstance(sub, list):
-                    walk(sub)
-            for h in getattr(st, 'handlers', []) or []:
-                walk(h.body)
-    walk(fn.body)
+    for e in events:
+        g = sf.global_call(e.value, ('asyncio.gather',)) if e.kind == 'call' else None
+        if g is not None and g[2].get('return_exceptions', sf.FALSE) == sf.FALSE and '**' not in g[2]:
+            ids = {t[3] for t in sf.subterms(e.value) if t[0] == 'comp'}
+            aw = next((x for x in events if x.kind == 'await' and x.seq > e.seq and x.value == e.value), None)
+            out.append((e, aw, ids))
     return out
 
 
+def _stage(events, invs, gathers):
+    """the awaited gather that runs every one of these backend invocations → (gather event, await event) or None"""
+    found = set()
+    for e, _, _ in invs:
+        mine = [(g, aw) for g, aw, ids in gathers if ids & _group_ids(e) and g.seq > e.seq]
+        if not mine or mine[0][1] is None:
+            return None
+        found.add((mine[0][0].seq, mine[0][1].seq))
+    if len(found) != 1:
+        return None
+    gs, aws = next(iter(found))
+    return events[gs], events[aws]
+
+
+def snapshot_order(interp):
+    """`snapshot`:
+       after  — every chunk upload (`backend.upload_stream` / `upload` inside the batch of workers) is run by ONE awaited
+                `asyncio.gather`, and the only other upload (the snapshot object: one location, outside every loop) is invoked after
+                that await;
+       abort  — that await sits in a `try` whose catch-all handler sets the `threading.Event` the chunk producer polls
+                (`is_set()`), and re-raises."""
+    out = {'after': False, 'abort': False, 'why': ''}
+    events, _ = interp.run('snapshot')
+    if not events:
+        return out
+    ups = symfacts.invocations_of(events, 'upload') + symfacts.invocations_of(events, 'upload_stream')
+    gathers = _gathers(events)
+    batch = [u for u in ups if any(ids & _group_ids(u[0]) for _, _, ids in gathers)]
+    single = [u for u in ups if u not in batch]
+    if not batch or not single:
+        out['why'] = f'{len(batch)} batched and {len(single)} single uploads'
+        return out
+    st = _stage(events, batch, gathers)
+    if st is None:
+        out['why'] = 'the chunk uploads are not run by one awaited gather'
+        return out
+    g, aw = st
+    locs = {symfacts.arg_of(a, k, 0, 'name') for _, a, k in single}
+    in_loop = any(c[0] in ('for', 'while', 'comp') for e, _, _ in single for c in e.ctx)
+    out['after'] = len(locs) == 1 and not in_loop and all(e.seq > aw.seq for e, _, _ in single)
+    if not out['after']:
+        out['why'] = 'the snapshot upload is not a single upload after the awaited gather'
+    tries = [c[1] for c in aw.ctx if c[0] == 'try-body']
+    for tid in reversed(tries):
+        hs = interp.trys[tid]['handlers']
+        for i, h in enumerate(hs):
+            if h['type'] == sf.NONE or (h['type'][0] == 'global' and h['type'][1].split('.')[-1] == 'BaseException'):
+                lo, hi = h['events']
+                sets = [sf.method_call(e.value, ('set',))[0] for e in events[lo:hi] if e.kind == 'call' and sf.method_call(e.value, ('set',)) is not None
+                        and e.guard <= aw.guard]
+                polled = {sf.method_call(e.value, ('is_set',))[0] for e in events if e.kind == 'call' and sf.method_call(e.value, ('is_set',)) is not None}
+                is_event = lambda t: sf.global_call(t, ('threading.Event',)) is not None  # noqa: E731
+                out['abort'] = h['term'] == 'raise' and any(is_event(x) and x in polled for x in sets) \
+                    and not any(hs[j]['term'] != 'raise' for j in range(i))
+                return out
+    return out
+
+
+def delete_order(interp, chunk_prefix):
+    """`delete_snapshots`: the backend deletions fall into two batches — locations built from the chunk prefix (chunks) and the others
+    (snapshots) —, each run by one awaited `asyncio.gather`; the await of the snapshot batch precedes every chunk deletion; every
+    `raise` and early `return` of the method itself precedes the first deletion."""
+    events, _ = interp.run('delete_snapshots')
+    if not events:
+        return False
+    dels = symfacts.invocations_of(events, 'delete')
+    is_chunk = lambda inv: chunk_prefix is not None and sf.mentions(symfacts.arg_of(inv[1], inv[2], 0, 'name') or sf.NONE, ('const', chunk_prefix))  # noqa: E731
+    chunks = [d for d in dels if is_chunk(d)]
+    snaps = [d for d in dels if not is_chunk(d)]
+    if not chunks or not snaps:
+        return False
+    gathers = _gathers(events)
+    s1, s2 = _stage(events, snaps, gathers), _stage(events, chunks, gathers)
+    if s1 is None or s2 is None or s1[0].seq == s2[0].seq:
+        return False
+    first = min(e.seq for e, _, _ in dels)
+    raises = [e for e in events if _own(e) and e.kind == 'raise']
+    return s1[1].seq < min(e.seq for e, _, _ in chunks) and all(e.seq < first for e in raises)
+
+
+def clean_single_stage(interp):
+    """`clean`: all backend deletions are one batch run by one awaited gather; nothing is uploaded"""
+    events, _ = interp.run('clean')
+    if not events:
+        return False
+    dels = symfacts.invocations_of(events, 'delete')
+    ups = symfacts.invocations_of(events, 'upload') + symfacts.invocations_of(events, 'upload_stream')
+    if not dels or ups:
+        return False
+    return _stage(events, dels, _gathers(events)) is not None and len({symfacts.arg_of(a, k, 0, 'name') for _, a, k in dels}) == 1
+
+
 def section(ctx):
-    un = ctx.unparse
-    rtree = ast.parse((ctx.REPO / 'replicat' / 'repository.py').read_text())
+    src = (ctx.REPO / 'replicat' / 'repository.py').read_text()
+    mod = sf.Module(src)
+
+    def guarded(what, fn, default):
+        try:
+            return fn(sf.Interp(mod, 'Repository'))
+        except Exception as e:  # noqa: BLE001
+            ctx.notes['crash.' + what] = f'query failed: {e!r}'
+            return default
     # ---------------- snapshot
-    sn = ctx.find_func(rtree, 'Repository', 'snapshot')
-    after, abort_ok = False, False
-    if sn is not None:
-        sts = _stmts_in_order(sn)
-        texts = [un(s) for s in sts]
-        ups = [i for i, t in enumerate(texts) if t.startswith('await self._upload_data(')]
-        all_ups = [n for n in ast.walk(sn) if isinstance(n, ast.Call) and un(n.func) in ('self._upload_data', 'self.backend.upload')]
-        gathers = [i for i, s in enumerate(sts) if isinstance(s, ast.Try) and any(
-            un(x) == 'await asyncio.gather(*(_worker() for _ in range(self._concurrent)))' for x in s.body)]
-        if len(ups) == 1 and len(all_ups) == 1 and len(gathers) == 1:
-            after = gathers[0] < ups[0]
-            tr = sts[gathers[0]]
-            abort_ok = (len(tr.handlers) == 1 and tr.handlers[0].type is None
-                        and [un(x) for x in tr.handlers[0].body] == ['abort.set()', 'raise'])
+    so = guarded('snapshot', snapshot_order, {'after': False, 'abort': False, 'why': 'failed'})
+    after, abort_ok = bool(so['after']), bool(so['abort'])
     if not after:
-        ctx.notes['crash.snapshot'] = 'snapshot: snapshot upload after the worker gather not recognised'
+        ctx.notes['crash.snapshot'] = 'snapshot: snapshot upload after the worker gather not recognised: ' + so.get('why', '')
     ctx.emit(f'def snapshotAfterWorkers : Bool := {"true" if after else "false"}')
     ctx.emit(f'def crashAbortOnWorkerFailure : Bool := {"true" if abort_ok else "false"}')
     # ---------------- delete
-    ds = ctx.find_func(rtree, 'Repository', 'delete_snapshots')
-    del_ok = False
-    if ds is not None:
-        sts = _stmts_in_order(ds)
-        texts = [un(s) for s in sts]
-        g1 = [i for i, t in enumerate(texts) if t == 'await asyncio.gather(*map(_delete_snapshot, snapshots_locations))']
-        g2 = [i for i, t in enumerate(texts) if t == 'await asyncio.gather(*map(_delete_chunk, chunks_to_delete))']
-        raises = [i for i, s in enumerate(sts) if isinstance(s, ast.Raise)]
-        dels = [n for n in ast.walk(ds) if isinstance(n, ast.Call) and un(n.func) == 'self._delete']
-        if len(g1) == 1 and len(g2) == 1 and len(dels) == 2:
-            del_ok = g1[0] < g2[0] and all(r < g1[0] for r in raises)
+    prefix = None
+    try:
+        prefix = ast.literal_eval(sf.class_assigns(mod.classes['Repository'])['CHUNK_PREFIX'])
+    except Exception:  # noqa: BLE001
+        pass
+    del_ok = bool(guarded('delete', lambda it: delete_order(it, prefix), False))
     if not del_ok:
         ctx.notes['crash.delete'] = 'delete_snapshots: snapshots-then-chunks order not recognised'
     ctx.emit(f'def deleteSnapshotsFirst : Bool := {"true" if del_ok else "false"}')
     # ---------------- clean
-    cl = ctx.find_func(rtree, 'Repository', 'clean')
-    clean_ok = False
-    if cl is not None:
-        gs = [n for n in ast.walk(cl) if isinstance(n, ast.Call) and un(n.func) == 'asyncio.gather']
-        dels = [n for n in ast.walk(cl) if isinstance(n, ast.Call) and un(n.func) == 'self._delete']
-        ups = [n for n in ast.walk(cl) if isinstance(n, ast.Call) and 'upload' in un(n.func)]
-        clean_ok = len(gs) == 1 and len(dels) == 1 and not ups
+    clean_ok = bool(guarded('clean', clean_single_stage, False))
     ctx.emit(f'def cleanSingleStage : Bool := {"true" if clean_ok else "false"}')
-    # ---------------- local backend
+    # ---------------- local backend (symbolic execution, see tools/symflow.py / tools/symfacts.py)
     ltree = ast.parse((ctx.REPO / 'replicat' / 'backends' / 'local.py').read_text())
     for nm in ('upload', 'upload_stream', '_destination_temp', 'list_files', 'exists', 'download', 'delete'):
         ctx.fp(f'local.{nm}', ctx.find_func(ltree, 'Local', nm))
-    dt = ctx.find_func(ltree, 'Local', '_destination_temp')
-    suffix, same_dir = None, False
-    if dt is not None:
-        for n in ast.walk(dt):
-            if isinstance(n, ast.Call) and un(n.func) == 'NamedTemporaryFile':
-                kw = {k.arg: k.value for k in n.keywords}
-                if isinstance(kw.get('suffix'), ast.Constant) and isinstance(kw['suffix'].value, str):
-                    suffix = kw['suffix'].value
-                same_dir = ('dir' in kw and un(kw['dir']) == 'destination.parent' and 'delete' in kw and un(kw['delete']) == 'False')
     import json
+    try:
+        lf = symfacts.local_facts(ctx.REPO)
+    except Exception as e:  # noqa: BLE001
+        ctx.notes['crash.local'] = f'symbolic execution of local.py failed: {e!r}'
+        lf = {}
+    up, ups, listing = lf.get('up') or {}, lf.get('ups') or {}, lf.get('listing') or {}
+    # the suffix of the temporary both upload paths create (it must be ONE creation site semantically: same suffix, same directory)
+    suffix = up.get('suffix') if up.get('suffix') is not None and up.get('suffix') == ups.get('suffix') else None
+    same_dir = bool(up.get('same_dir')) and bool(ups.get('same_dir'))
     ctx.emit(f'def crashLocalTempSuffix : String := {json.dumps(suffix)}' if suffix is not None else 'opaque crashLocalTempSuffix : String')
     ctx.emit(f'def localTempSameDir : Bool := {"true" if same_dir else "false"}')
-    lf = ctx.find_func(ltree, 'Local', 'list_files')
-    excl = None
-    if lf is not None:
-        for n in ast.walk(lf):
-            if isinstance(n, ast.If) and isinstance(n.test, ast.Call) and un(n.test.func) == 'path.endswith' and len(n.test.args) == 1 \
-                    and isinstance(n.test.args[0], ast.Constant) and [un(x) for x in n.body] == ['continue']:
-                excl = n.test.args[0].value
+    excl = listing.get('exclude')
+    if excl is None:
+        ctx.notes['crash.local.list'] = 'list_files: ' + (listing.get('why') or 'not recognised')
     ctx.emit(f'def localListExcludes : String := {json.dumps(excl)}' if excl is not None else 'opaque localListExcludes : String')
-
-    def shape(fn, writes):
-        """try: … <write into temp> … ; temp.replace(destination)  except: … temp.unlink(missing_ok=True) … ; raise
-        (other statements such as logging are tolerated; the replace must be the last statement of the try body, after the write)"""
-        if fn is None:
-            return False
-        tries = [s for s in fn.body if isinstance(s, ast.Try)]
-        if len(tries) != 1 or 'destination, temp = self._destination_temp(name)' not in [un(x) for x in fn.body]:
-            return False
-        t = tries[0]
-        body = [un(x) for x in t.body]
-        w = [i for i, x in enumerate(body) if writes(x)]
-        if not w or body[-1] != 'temp.replace(destination)' or len(t.handlers) != 1 or t.handlers[0].type is not None:
-            return False
-        if any('destination' in x for x in body[:-1]):      # nothing touches the destination before the replace
-            return False
-        h = [un(x) for x in t.handlers[0].body]
-        return 'temp.unlink(missing_ok=True)' in h and h[-1] == 'raise'
-    up = shape(ctx.find_func(ltree, 'Local', 'upload'), lambda x: x == 'temp.write_bytes(data)')
-    ups = shape(ctx.find_func(ltree, 'Local', 'upload_stream'),
-                lambda x: x.startswith("with temp.open('wb') as file:") and 'shutil.copyfileobj(stream, file, length=chunk_size)' in x)
-    if not (up and ups):
-        ctx.notes['crash.local'] = f'local upload shape not recognised (upload={up}, upload_stream={ups})'
-    ctx.emit(f'def localUploadShape : Bool := {"true" if (up and ups) else "false"}')
+    if not (up.get('ok') and ups.get('ok')):
+        ctx.notes['crash.local'] = f'local upload shape not recognised (upload: {up.get("why") or up.get("ok")}; upload_stream: {ups.get("why") or ups.get("ok")})'
+    ctx.emit(f'def localUploadShape : Bool := {"true" if (up.get("ok") and ups.get("ok")) else "false"}')
